@@ -825,6 +825,7 @@ func runMix(cfg *config, out *output) error {
 		"shared merklizer: document "+sharedDoc.Name+", built once with the oracle's loader; oracle proofs use the same merklizer",
 		"embedded document: "+embeddedURL)
 	out.Distribution["ipfs_cats"] = senv.cli.cats
+	out.LoaderLogs = append(oenv.exportLogs("sequential", oracleRecs), senv.exportLogs("concurrent", sharedRecs)...)
 	for _, m := range oenv.checkVersioned(oracleRecs) {
 		out.addMismatch(m)
 	}
